@@ -14,7 +14,7 @@ RULE = ("Round trip: n steps, dt -> -dt, n steps.  JANUS (orders 2,4,6,8,10; sca
         "independently; N 2-6 hierarchical or comparable-mass systems; n <= 300; both signs of dt; with and without "
         "read-only pre/post_timestep_modifications / heartbeat observers installed; gravity basic / compensated / "
         "none; redundant re-assignment of scale_pos/scale_vel/order/integrator/gravity/dt to their current values at "
-        "generated points of either leg (must leave the forward trajectory bitwise unchanged); all particles active or N_active<N with testparticle_type 0/1; dt up to 0.1 P_min): the particle "
+        "generated points of either leg; open or periodic box small enough that bodies cross a face (must leave the forward trajectory bitwise unchanged); all particles active or N_active<N with testparticle_type 0/1; dt up to 0.1 P_min): the particle "
         "bit patterns and the integer state p_int must equal those of the initial state put on the grid.  "
         "LEAPFROG, WHFast (4 coordinate systems, default kernel, no correctors, safe_mode 0/1), SABA types without "
         "correctors, EOS with unprocessed splittings on both levels, SEI: the state must return to the initial "
@@ -39,6 +39,7 @@ CLASSES = ["%s/monitor:%s" % (a, b) for a in ("janus", "symmetric", "sei") for b
            "janus/gravity:none", "janus/testparticles:type0", "janus/testparticles:type1",
            "janus/compensated+testparticles"] + ["janus/reassign:" + w for w in SETTINGS_NAMES] + \
           ["janus/reassign_leg%d" % i for i in range(3)] + \
+          ["janus/periodic", "janus/periodic_outside_at_turn", "janus_tp/periodic", "janus_tp/periodic_outside_at_turn"] + \
           ["%s/drive:%s" % (a_, b_) for a_ in ("janus", "janus_tp", "symmetric", "sei")
            for b_ in ("steps/manual/steps", "integrate/manual/integrate", "integrate/integrate/integrate",
                       "steps/integrate/integrate")] + ["janus_tp/compensated+testparticles", "janus_tp/testparticles:type0",
@@ -157,6 +158,10 @@ janus_case = st.fixed_dictionaries({
     "testparticle_type": st.sampled_from([0, 1]),
     "reconf": reconf,
     "drive": drive,
+    # periodic box: half size = factor * largest initial |coordinate| (None: open boundary); with a small factor the
+    # outer bodies cross a face on the way.  JANUS keeps its integer state authoritative: wrapping only moves the
+    # double copy, so the round trip must still be exact
+    "box": st.sampled_from([None, None, 1.02, 1.1, 1.5]),
 })
 # focus on the force-routine lattice: several active bodies plus test particles, fine grid, longer steps
 janus_tp_case = st.fixed_dictionaries({
@@ -173,6 +178,7 @@ janus_tp_case = st.fixed_dictionaries({
     "testparticle_type": st.sampled_from([0, 1]),
     "reconf": reconf,
     "drive": drive,
+    "box": st.sampled_from([None, None, 1.1]),
 })
 XYZ = ("x", "y", "z", "vx", "vy", "vz")
 
@@ -207,8 +213,15 @@ def run_janus(c, ctx):
         grid.append(ints)
     dt = c["dt_frac"] * sysd["P_min"] * (-1.0 if c["backward_first"] else 1.0)
 
+    boxf = c.get("box")
+    xmax0 = max(abs(q[k]) for q in snapped for k in ("x", "y", "z"))
+
     def make():
-        s_ = rb.new_sim({"G": sysd["G"], "particles": snapped})
+        spec = {"G": sysd["G"], "particles": snapped}
+        if boxf is not None and xmax0 > 0:
+            spec["box"] = {"size": 2.0 * boxf * xmax0}
+            spec["boundary"] = "periodic"
+        s_ = rb.new_sim(spec)
         s_.integrator = "janus"
         s_.gravity = c["gravity"]
         if c["n_active"] is not None and len(snapped) >= 2:
@@ -255,6 +268,11 @@ def run_janus(c, ctx):
     leg(sim, n, [(fr, wh) for lg, fr, wh in rc if lg == 0], dr[0], dt)
     far_int = [[getattr(sim.ri_janus.p_int[i], k) for k in XYZ] for i in range(N)]
     moved = max(abs(far_int[i][j] - grid[i][j]) for i in range(N) for j in range(6))
+    if boxf is not None and xmax0 > 0:
+        ctx.cls("periodic")
+        half = boxf * xmax0
+        if any(abs(float(far_int[i][j]) * sp) > half for i in range(N) for j in range(3)):
+            ctx.cls("periodic_outside_at_turn")     # some body is outside the box (wrapped in the double copy)
     far_t = sim.t
     if any(lg == 0 for lg, fr, wh in rc):
         # metamorphic: re-assigning a setting to its current value must not change the trajectory at all
@@ -263,6 +281,10 @@ def run_janus(c, ctx):
         twin_int = [[getattr(twin.ri_janus.p_int[i], k) for k in XYZ] for i in range(N)]
         twin_bits = [[rb.dbits(getattr(twin.particles[i], k)) for k in XYZ] for i in range(N)]
         here_bits = [[rb.dbits(getattr(sim.particles[i], k)) for k in XYZ] for i in range(N)]
+        if boxf is not None:
+            # periodic box: the double copy of a body outside the box is wrapped by the boundary check and
+            # unwrapped again by the next synchronize; only the integer state is authoritative at this point
+            twin_bits = here_bits
         if twin_int != far_int or twin_bits != here_bits:
             bad = [(i, XYZ[j], far_int[i][j] - twin_int[i][j]) for i in range(N) for j in range(6)
                    if far_int[i][j] != twin_int[i][j] or here_bits[i][j] != twin_bits[i][j]]
